@@ -38,16 +38,18 @@ def expected_selection(all_isos, lst):
     return [i for i in all_isos if i in named]
 
 
-def check_call(Runner, tab, lst, table, real=False, save=False):
+def check_call(Runner, tab, lst, table, real=False, save=False, popov=None):
     np = supplies._S["np"]
     isos = list(tab["iso3"])
     idx = {iso: i for i, iso in enumerate(isos)}
     calls = []
+    modelled_pop = {}
     r = Runner()
     if not real:
         def stand_in(country_data, scenario_option, *a, **k):
             iso = country_data["iso3"]
             calls.append(iso)
+            modelled_pop[iso] = float(country_data["population"])
             f = fraction_for(idx[iso], table)
             return f, "stand-in", _Stub(f)
         r.run_optimizer_for_country = stand_in
@@ -60,6 +62,8 @@ def check_call(Runner, tab, lst, table, real=False, save=False):
             return out
         r.run_optimizer_for_country = spy
     opts = options.clean(options.preset("ms_example_resilient"))
+    if popov is not None:
+        opts["population"] = popov          # a documented custom parameter: overrides the table's column for every country of the run
     shared = list(lst)          # ONE list object for both calls, as a YAML file with several simulations passes it
     with common.quiet():
         if not real:
@@ -73,9 +77,19 @@ def check_call(Runner, tab, lst, table, real=False, save=False):
                                                                    countries_list=shared, return_results=True, **({"save_all_results": True} if save else {}))
     sel = expected_selection(isos, lst)
     pop = {row["iso3"]: float(row["population"]) for _, row in tab.iterrows()}
+    if popov is not None:
+        # the weight of a country is the population it was modelled with: the override, as handed to the per-country computation
+        if any(modelled_pop.get(i) != float(popov) for i in sel):
+            return [violation("capped_population_weighted_mean", {"selection": list(lst), "table": table, "population_override": popov},
+                              "population override %r did not reach the per-country computation: %s" % (popov, {i: modelled_pop.get(i) for i in sel[:4]}),
+                              {"selection": list(lst), "table": table, "real": real, "save": save, "popov": popov})], None
+        pop = {i: float(popov) for i in pop}
     name = {row["iso3"]: row["country"] for _, row in tab.iterrows()}
     key = {"selection": list(lst), "table": table, "real": real}
     rp = {"selection": list(lst), "table": table, "real": real, "save": save}
+    if popov is not None:
+        key["population_override"] = popov
+        rp["popov"] = popov
     vs = []
     if real:
         fr = dict(calls)
@@ -106,10 +120,11 @@ def check_call(Runner, tab, lst, table, real=False, save=False):
 def job(j):
     lst, table, real = j[:3]
     save = len(j) > 3 and j[3]
+    popov = j[4] if len(j) > 4 else None
     supplies.init()
     with common.quiet():
         from src.scenarios.run_model_no_trade import ScenarioRunnerNoTrade
-    vs, agg = check_call(ScenarioRunnerNoTrade, supplies._S["tab"], lst, table, real, save)
+    vs, agg = check_call(ScenarioRunnerNoTrade, supplies._S["tab"], lst, table, real, save, popov)
     return {"v": vs, "agg": agg, "n": len(expected_selection(list(supplies._S["tab"]["iso3"]), lst))}
 
 
@@ -126,6 +141,7 @@ def duplicate_patterns():
 
 def run(tier, seed):
     jobs = [(p, t, False) for p in list(patterns()) + duplicate_patterns() for t in range(5)]
+    jobs += [(p, t, False, False, pv) for p in list(patterns()) + duplicate_patterns()[:2] for t, pv in ((1, 3e6), (4, 2.5e7))]
     real = [(("USA", "LUX"), 0, True), (("ARG", "!USA"), 0, True), (("!USA",) if tier == "thorough" else ("SWT",), 0, True),
             (("LUX", "SWT"), 0, True, True)]          # the last one also asks for the per-country tables to be saved (as the web front end does)
     res = common.pmap(job, jobs + real, init_fn=supplies.init, chunksize=1)
@@ -135,6 +151,7 @@ def run(tier, seed):
            "stubbed_calls": 2 * len(jobs), "real_unstubbed_calls": len(real),
            "bound": {"history": "every stubbed selection is run twice with the same list object; the second call is judged against the caller's original list",
                      "selection": "every pattern absent / named / '!'-named per country over %s (81 lists: empty, inclusion, exclusion, mixed) + 7 lists that name a country more than once" % UNIVERSE,
+                     "population override": "every selection pattern again with the custom parameter population = 3e6 (table 1) and 2.5e7 (table 4, with failing countries): weights are the populations the countries were modelled with",
                      "fractions": "3 assignment tables over %s + 2 tables in which every third country reports a failed run (NaN)" % (list(FRACTIONS),), "real": [list(r[0]) for r in real]},
            "alphabet": "a state is one selected country row contributing to the aggregate; a transition one per-country step of run_model_no_trade",
            "samples": [{"selection": list(jobs[5][0]), "table": 0}, {"selection": list(jobs[-1][0]), "table": 2}, {"selection": ["USA", "LUX"], "real": True}],
@@ -143,4 +160,4 @@ def run(tier, seed):
 
 
 def replay(rp):
-    return job((tuple(rp["selection"]), rp["table"], rp["real"], rp.get("save", False)))["v"]
+    return job((tuple(rp["selection"]), rp["table"], rp["real"], rp.get("save", False), rp.get("popov")))["v"]
